@@ -88,11 +88,74 @@ DATACLASS_RULE = ("the dict form is dataclasses.asdict and the reader calls cls(
                   "field is declared init=False, no dataclass(init=False), and no axis class defines its own __init__")
 
 
+def _all_fields_written(ctx, w: FuncInfo) -> None:
+    """Every entry of dataclasses.asdict(axis) reaches the returned dict: the dict is returned itself (values may be
+    converted in place), or a new dict is filled in a loop over `.items()` whose store is executed on every pass."""
+    from ..cfg import CFG
+
+    rets = [r for r in walk_no_nested(w.node) if isinstance(r, ast.Return) and r.value is not None]
+    asd = [c for c in walk_no_nested(w.node) if isinstance(c, ast.Call) and last_attr(c) == "asdict"]
+    if len(rets) != 1 or not isinstance(rets[0].value, ast.Name) or len(asd) != 1:
+        return  # other shapes are judged by the asdict / comprehension rule below
+    out = rets[0].value.id
+    direct = any(isinstance(st, ast.Assign) and st.value is asd[0] and dotted(st.targets[0]) == out
+                 for st in walk_no_nested(w.node))
+    problems = []
+    where = w.where
+    if direct:
+        for st in walk_no_nested(w.node):
+            drops = (isinstance(st, ast.Delete) and any(isinstance(t, ast.Subscript) and dotted(t.value) == out
+                                                        for t in st.targets)) or (
+                isinstance(st, ast.Expr) and isinstance(st.value, ast.Call) and isinstance(st.value.func, ast.Attribute)
+                and st.value.func.attr in ("pop", "popitem", "clear") and dotted(st.value.func.value) == out)
+            if drops:
+                problems.append(f"`{norm_text(st)[:60]}` removes entries from the dict form")
+                where = w.loc(st)
+    else:
+        loops = [l for l in walk_no_nested(w.node) if isinstance(l, ast.For) and any(x is asd[0] for x in ast.walk(l.iter))]
+        if len(loops) != 1:
+            raise AnalysisError(f"{w.qualname}: the returned dict `{out}` is neither dataclasses.asdict(...) itself nor "
+                                "filled in one loop over its items")
+        loop = loops[0]
+        cfg = CFG(w.node)
+        header = cfg.node_of(loop).idx
+        body = cfg.loop_body_nodes(header)
+        stores = [cfg.node_of(st).idx for st in ast.walk(loop) if isinstance(st, ast.Assign) and any(
+            isinstance(t, ast.Subscript) and dotted(t.value) == out for t in st.targets)]
+        if not stores:
+            problems.append(f"the loop over the fields never stores into `{out}`")
+        else:
+            seen, stack, skip = set(), [x for x in cfg.nodes[header].succ if x in body], False
+            while stack:
+                x = stack.pop()
+                if x in stores or x in seen:
+                    continue
+                seen.add(x)
+                for s2 in cfg.nodes[x].succ:
+                    if s2 == header:
+                        skip = True
+                    elif s2 in body:
+                        stack.append(s2)
+            if skip:
+                conds = [norm_text(i.test) for i in ast.walk(loop) if isinstance(i, ast.If)
+                         and any(isinstance(x, ast.Continue) for b in i.body + i.orelse for x in ast.walk(b))]
+                problems.append("a pass of the loop over the fields can end without storing the field"
+                                + (f" (`if {conds[0]}: continue`)" if conds else "") +
+                                ": such fields are missing from the dict and come back as the class default, which "
+                                "need not be the value that was written")
+                where = w.loc(loop)
+    ctx.check(not problems, "R-DATACLASS", f"{w.qualname}:all-fields", where,
+              "every field of dataclasses.asdict(axis) is written", "; ".join(problems), key_detail="all-fields")
+
+
 def dataclass_rules(ctx, repo, classes=None, writers=None) -> None:
     """R-DATACLASS, shared by C35 (dict round trip) and C30 (zarr round trip writes axes with axis_to_dict)."""
     classes = classes if classes is not None else reg.axis_classes(repo)
     writers = writers if writers is not None else [repo.function(MOD, "axis_to_dict"),
                                                    repo.method(MOD, reg.BASE, "to_dict")]
+    writers = reg.resolve_delegates(repo, writers)
+    for w in writers:
+        _all_fields_written(ctx, w)
     for w in writers:
         recv = (w.positional_params[0] if w.positional_params else "", "self", "axis")
         calls = [c for c in walk_no_nested(w.node) if isinstance(c, ast.Call) and last_attr(c) == "asdict"]
